@@ -790,6 +790,7 @@ func checkC16(e *Engine, r *Report) {
 	// ================================================================== supply partition
 	checkSupplyPartition(e, r, getCpu, "R11:supply-partition@getCpuSupply")
 	checkConstraintsFreshness(e, r)
+	checkConstraintsRefusals(e, r)
 
 	// ================================================================== memory attachment
 	{
@@ -1364,5 +1365,116 @@ func checkMemSplit(e *Engine, r *Report, getMem *ssa.Function) {
 				r.Check("R2:special-mem-added#"+n, rule, "the CPU-less "+n+" memory found for a pool is added to the pool's "+n+" nodes", e.Pos(getMem.Pos()), getMem, p == nil, e.pathString(p), true)
 			}
 		}
+	}
+}
+
+// checkConstraintsRefusals: what the partition lemma assumes about a configured reserved cpuset is enforced — a set
+// with CPUs outside the available ones, a mix of isolated and normal CPUs, or several isolated CPUs is refused.
+// Each case is stated as an assumption on the set-algebra tests of checkConstraints; no successful return may be
+// reachable under it.
+func checkConstraintsRefusals(e *Engine, r *Report) {
+	rule := "R11 supply partition"
+	fn := e.Fn(pkgTA, "policy.checkConstraints")
+	if fn == nil {
+		return
+	}
+	fAllowed, fIsolated := e.Field(pkgTA, "policy", "allowed"), e.Field(pkgTA, "policy", "isolated")
+	callNamed := func(v ssa.Value, name string) *ssa.Call {
+		c, ok := unspill(v).(*ssa.Call)
+		if !ok || callObj(c.Common()) == nil || callObj(c.Common()).Name() != name {
+			return nil
+		}
+		return c
+	}
+	argIsField := func(c *ssa.Call, i int, f *types.Var) bool {
+		a := callArgs(c)
+		if i >= len(a) {
+			return false
+		}
+		return isFieldLoad(variadicSingle(a[i]), f)
+	}
+	// outside := X.Difference(p.allowed);  iso := X.Intersection(p.isolated)
+	isOutside := func(v ssa.Value) bool {
+		c := callNamed(v, "Difference")
+		return c != nil && argIsField(c, 1, fAllowed)
+	}
+	isIso := func(v ssa.Value) bool {
+		ok := false
+		Origins(v, func(o ssa.Value) bool {
+			if c := callNamed(o, "Intersection"); c != nil && argIsField(c, 1, fIsolated) {
+				ok = true
+			}
+			return ok
+		})
+		return ok
+	}
+	type tv struct{ known, val bool }
+	scen := func(outsideEmpty, isoEmpty, equalsIso tv, isoSize signSet) Assumption {
+		return func(cond ssa.Value) (bool, bool) {
+			if c := callNamed(cond, "IsEmpty"); c != nil {
+				x := callArgs(c)[0]
+				if isOutside(x) && outsideEmpty.known {
+					return true, outsideEmpty.val
+				}
+				if isIso(x) && isoEmpty.known {
+					return true, isoEmpty.val
+				}
+			}
+			if c := callNamed(cond, "Equals"); c != nil && equalsIso.known {
+				a := callArgs(c)
+				if len(a) == 2 && (isIso(a[1]) || isIso(a[0])) {
+					return true, equalsIso.val
+				}
+			}
+			if isoSize != 0 {
+				if x, y, op, ok := cmpOriented(cond, func(v ssa.Value) bool {
+					c := callNamed(v, "Size")
+					return c != nil && isIso(callArgs(c)[0])
+				}); ok {
+					_ = x
+					if k, isK := y.(*ssa.Const); isK {
+						if n, ok := constIntVal(k); ok && n == 1 {
+							// size ? 1 with size >= 2
+							switch op {
+							case token.GTR, token.GEQ, token.NEQ:
+								return true, true
+							case token.LEQ, token.LSS, token.EQL:
+								return true, false
+							}
+						}
+					}
+				}
+			}
+			return false, false
+		}
+	}
+	yes, no, unk := tv{true, true}, tv{true, false}, tv{}
+	for _, t := range []struct {
+		key, what string
+		asm       Assumption
+	}{
+		{"outside-available", "a reserved cpuset with CPUs outside the available ones is refused", scen(no, unk, unk, 0)},
+		{"mixes-isolated-and-normal", "a reserved cpuset that mixes isolated and normal CPUs is refused", scen(yes, no, no, 0)},
+		{"several-isolated", "a reserved cpuset of several isolated CPUs is refused", scen(yes, no, yes, sgPos)},
+	} {
+		// from the first of the tests on: the scenario only makes sense where the reserved cpuset is examined
+		var first ssa.Instruction
+		AllInstrs(fn, func(in ssa.Instruction) {
+			if first != nil {
+				return
+			}
+			if c, ok := in.(*ssa.Call); ok && callObj(c.Common()) != nil && callObj(c.Common()).Name() == "Difference" && argIsField(c, 1, fAllowed) {
+				first = in
+			}
+		})
+		if first == nil {
+			r.Check("R11:constraints-refuse#"+t.key, rule, t.what, e.Pos(fn.Pos()), fn, false, "checkConstraints does not compare the reserved cpuset with the available CPUs", true)
+			continue
+		}
+		p := FindPath(PathQuery{Fn: fn, From: first, Assume: t.asm, Target: func(in ssa.Instruction) bool {
+			ret, ok := in.(*ssa.Return)
+			return ok && e.maySucceed(ret)
+		}})
+		r.Check("R11:constraints-refuse#"+t.key, rule, t.what, e.InstrPos(first), fn, p == nil, e.pathString(p), true)
 	}
 }
